@@ -95,6 +95,7 @@ type lockAnalysis struct {
 	entry    map[*ssa.Function]lockSet // nil entry = not yet constrained (TOP)
 	root     map[*ssa.Function]bool
 	at       map[ssa.Instruction]lockSet // lockset immediately before the instruction
+	atReplay map[ssa.Instruction]lockSet // for defers: lockset when the deferred call actually runs (intersection over exits)
 	atExit   map[*ssa.Function]lockSet
 	edges    []lockEdge
 	syncCall map[*ssa.Function][]syncSite // closures run synchronously at a call site
@@ -167,7 +168,7 @@ func lockName(v ssa.Value) (string, ssa.Value) {
 
 func newLockAnalysis(m *Module, pkgs ...string) *lockAnalysis {
 	la := &lockAnalysis{m: m, scope: map[*ssa.Function]bool{}, summary: map[*ssa.Function]*lockEffect{}, inSumm: map[*ssa.Function]bool{},
-		entry: map[*ssa.Function]lockSet{}, root: map[*ssa.Function]bool{}, at: map[ssa.Instruction]lockSet{}, atExit: map[*ssa.Function]lockSet{},
+		entry: map[*ssa.Function]lockSet{}, root: map[*ssa.Function]bool{}, at: map[ssa.Instruction]lockSet{}, atReplay: map[ssa.Instruction]lockSet{}, atExit: map[*ssa.Function]lockSet{},
 		syncCall: map[*ssa.Function][]syncSite{}, acquired: map[*ssa.Function][]lockAcq{}}
 	inPkg := map[string]bool{}
 	for _, p := range pkgs {
@@ -254,6 +255,7 @@ func newLockAnalysis(m *Module, pkgs ...string) *lockAnalysis {
 		changed := false
 		newEntry := map[*ssa.Function]lockSet{}
 		la.edges = nil
+		la.atReplay = map[ssa.Instruction]lockSet{}
 		la.acquired = map[*ssa.Function][]lockAcq{}
 		for _, f := range fns {
 			e, ok := la.entry[f]
@@ -467,6 +469,13 @@ func (la *lockAnalysis) step(f *ssa.Function, i ssa.Instruction, st *lstate, def
 		for k := len(defers) - 1; k >= 0; k-- {
 			d := defers[k]
 			if domInstr(d, x) {
+				if record {
+					if cur, ok := la.atReplay[d]; ok {
+						la.atReplay[d] = intersect(cur, st.held)
+					} else {
+						la.atReplay[d] = st.held.clone()
+					}
+				}
 				la.doCall(f, d, d.Common(), st, record, onCall)
 			} else if instrCanReach(d, x) {
 				// conditionally registered: a may-release drops the lock from the must set
@@ -489,7 +498,7 @@ func (la *lockAnalysis) doCall(f *ssa.Function, at ssa.Instruction, c *ssa.CallC
 		la.apply(st, op)
 		return
 	}
-	cal := la.m.callee(c)
+	cal := la.m.calleeCHA(c)
 	if cal == nil {
 		return
 	}
@@ -686,4 +695,97 @@ func ruleL2(c *Ctx) {
 				"the per-request result escapes ("+bad+"): concurrent callers could receive results computed from each other's responses")
 		}
 	}
+}
+
+// transitiveEdges adds, for every call site in scope, edges from each lock
+// held at the site to every lock the callee may acquire transitively (so that
+// exported entry points, which are analysed with an empty entry set, still
+// contribute the order in which their callers nest them).
+func (la *lockAnalysis) transitiveEdges() []lockEdge {
+	acq := map[*ssa.Function]map[string]bool{}
+	var fns []*ssa.Function
+	for f := range la.scope {
+		fns = append(fns, f)
+	}
+	sort.Slice(fns, func(i, j int) bool { return fns[i].String() < fns[j].String() })
+	callees := func(ci ssa.CallInstruction) (out []*ssa.Function, extra string) {
+		c := ci.Common()
+		if g := la.m.calleeCHA(c); g != nil {
+			if la.scope[g] {
+				out = append(out, g)
+			} else {
+				if g.String() == "(*sync.Once).Do" {
+					if name, _ := lockName(c.Args[0]); name != "" {
+						extra = "once:" + name
+					}
+				}
+				for _, a := range c.Args {
+					if h := closureFn(a); h != nil && la.scope[h] && len(la.syncCall[h]) > 0 {
+						out = append(out, h)
+					}
+				}
+			}
+		}
+		return
+	}
+	for _, f := range fns {
+		acq[f] = map[string]bool{}
+		for _, a := range la.acquired[f] {
+			acq[f][a.ID.Name] = true
+		}
+	}
+	for changed := true; changed; {
+		changed = false
+		for _, f := range fns {
+			for _, ci := range calls(f) {
+				if _, isGo := ci.(*ssa.Go); isGo {
+					continue
+				}
+				gs, extra := callees(ci)
+				if extra != "" && !acq[f][extra] {
+					acq[f][extra] = true
+					changed = true
+				}
+				for _, g := range gs {
+					for l := range acq[g] {
+						if !acq[f][l] {
+							acq[f][l] = true
+							changed = true
+						}
+					}
+				}
+			}
+		}
+	}
+	var out []lockEdge
+	for _, f := range fns {
+		for _, ci := range calls(f) {
+			if _, isGo := ci.(*ssa.Go); isGo {
+				continue
+			}
+			held := la.at[ci]
+			if _, isDefer := ci.(*ssa.Defer); isDefer {
+				held = la.atReplay[ci]
+			}
+			if len(held) == 0 {
+				continue
+			}
+			gs, extra := callees(ci)
+			targets := map[string]bool{}
+			if extra != "" {
+				targets[extra] = true
+			}
+			for _, g := range gs {
+				for l := range acq[g] {
+					targets[l] = true
+				}
+			}
+			for h := range held {
+				for t := range targets {
+					out = append(out, lockEdge{h.Name, t, ci, f})
+				}
+			}
+		}
+	}
+	return out
 }
